@@ -63,6 +63,8 @@ Fixpoint get_sub (s : pystr) (l : list (pystr * sub)) : option sub :=
   match l with [] => None | (s', x) :: r => if str_eqb s s' then Some x else get_sub s r end.
 Fixpoint del_sub (s : pystr) (l : list (pystr * sub)) : list (pystr * sub) :=
   match l with [] => [] | (s', x) :: r => if str_eqb s s' then r else (s', x) :: del_sub s r end.
+Fixpoint upd_sub (s : pystr) (y : sub) (l : list (pystr * sub)) : list (pystr * sub) :=
+  match l with [] => [] | (s', x) :: r => if str_eqb s s' then (s', y) :: r else (s', x) :: upd_sub s y r end.
 Definition emit (f : frame) (x : conn) : conn :=
   if c_open x then {| c_subs := c_subs x; c_out := f :: c_out x; c_open := true;
                       c_throttle := c_throttle x; c_sender := c_sender x; c_deferred := c_deferred x |} else x.
@@ -298,7 +300,7 @@ Definition step (cfg : rcfg) (st : rstate) (o : op) : sres :=
                   | Some sb =>
                       if sb_running sb then
                         let '(x1, sb1) := row_step sid sb x in
-                        let subs1 := map (fun p => if str_eqb (fst p) sid then (fst p, sb1) else p) (c_subs x1) in
+                        let subs1 := upd_sub sid sb1 (c_subs x1) in
                         SOkS {| r_conns := set_conn c (with_subs subs1 x1) (r_conns st); r_registry := r_registry st;
                                 r_pending := r_pending st; r_gen := r_gen st |}
                       else SStuck
